@@ -1039,6 +1039,57 @@ def raw_file_corners(ctx, post, r, rounds):
                     os.remove(path)
             if len(bad) > 5:
                 break
+    # (c) per-speaker statistics in a Kaldi table, selected with key=<name>: each object has the statistics of ITS entry
+    try:
+        from pydrobert.kaldi.io import open as kaldi_open
+    except ImportError:
+        kaldi_open = None
+    if kaldi_open is not None:
+        os.makedirs(FILE_DIR, exist_ok=True)
+        with warnings.catch_warnings():
+            warnings.simplefilter("ignore")
+            for n in range(max(3, rounds // 20)):
+                path = os.path.join(FILE_DIR, "tab_s%d_%d.ark" % (ctx.seed, n))
+                rs = np.random.RandomState(r.randrange(2 ** 31))
+                F = r.choice([1, 3, 4])
+                keys = ["spk%d" % k for k in range(r.randint(2, 5))]
+                data = {}
+                try:
+                    with kaldi_open("ark:" + path, "dm", "w") as tab:
+                        for k in keys:
+                            x = rs.randn(r.randint(5, 40), F) * r.choice([0.5, 2.0]) + 10.0 * keys.index(k)
+                            st = np.zeros((2, F + 1))
+                            st[0, :-1], st[0, -1], st[1, :-1] = x.sum(0), len(x), (x ** 2).sum(0)
+                            tab.write(k, st)
+                            data[k] = x
+                    order = list(keys)
+                    r.shuffle(order)
+                    for k in order:
+                        nv = r.random() < 0.7
+                        desc = dict(kind="kaldi-table-entry", F=F, entries=keys, key=k, norm_var=nv)
+                        ctx.count("rawfile:kaldi-table-entry")
+                        ctx.case(desc, nontrivial=True)
+                        obj = post.Standardize("ark:" + path, norm_var=nv, key=k)
+                        more = rs.randn(3, F) + 10.0 * keys.index(k) if r.random() < 0.5 else None
+                        allx = data[k]
+                        if more is not None:
+                            obj.accumulate(more)
+                            allx = np.concatenate([allx, more])
+                        x = rs.randn(4, F) + 10.0 * keys.index(k)
+                        y = obj.apply(x)
+                        exp = (x - allx.mean(0)) / (allx.std(0) if nv else 1.0)
+                        err = float(np.max(np.abs(y - exp) / np.maximum(1.0, np.abs(exp))))
+                        if not err <= 1e-6:
+                            bad.append(("statistics loaded from entry %r of a Kaldi table: apply is not (x - mean)/std of that entry's "
+                                        "statistics (plus what was accumulated since)" % k, dict(desc, rel_err=err, accumulated_more=more is not None)))
+                            break
+                except Exception as e:  # noqa: BLE001
+                    bad.append(("a valid call raised %s: %s" % (type(e).__name__, e), dict(kind="kaldi-table-entry", entries=keys)))
+                finally:
+                    if os.path.exists(path):
+                        os.remove(path)
+                if len(bad) > 5:
+                    break
     try:
         os.rmdir(FILE_DIR)
     except OSError:
